@@ -203,3 +203,16 @@ Definition char_node (icase unicode : bool) (c : N) : R node :=
 
 (* the node for `.` *)
 Definition dot_node (dot_all : bool) : node := if dot_all then NMatchAny else NMatchAnyExceptLT.
+
+(* make_cat and make_alt (src/parse.rs): a term is its only node, Empty, or the flat Cat; an alternation is the
+   balanced tree over its terms (split at n/2, left to right) *)
+Definition make_cat (l : list node) : node := match l with [] => NEmpty | [x] => x | _ => NCat l end.
+Fixpoint make_alt (fuel : nat) (l : list node) : node :=
+  match l with
+  | [] => NEmpty
+  | [x] => x
+  | _ => match fuel with
+         | O => NEmpty
+         | S k => let h := Nat.div (length l) 2 in NAlt (make_alt k (firstn h l)) (make_alt k (skipn h l))
+         end
+  end.
